@@ -21,10 +21,9 @@ class HashTap(ns.Tap):
         self.out_ids.append((payload[0] if payload else -1, seq, hashlib.sha1(bytes(payload)).hexdigest()[:12]))
         return super()._build_packet(payload)
 
-    def read_message(self):
-        cmd, m = super().read_message()
+    def _tap_record_in(self, cmd, m):
+        # under tap_cv, before tap_in grows (see ns.Tap): in_ids is never behind tap_in
         self.in_ids.append((cmd, m.seqno, hashlib.sha1(bytes([cmd]) + m.asbytes()).hexdigest()[:12]))
-        return cmd, m
 
 
 INJ = {
